@@ -21,7 +21,6 @@ ODE residual wherever an estimated scale enters.
 from __future__ import annotations
 
 import dataclasses
-import math
 from fractions import Fraction
 
 import numpy as np
@@ -266,7 +265,6 @@ def ts0_fixed_grid(ctx, cfg0, d, field, u0s, t0, hs):
 
 def ts0_adaptive_pair(ctx, cfg0, d, field, u0s, t0, save_at, tol, clip):
     import jax.numpy as jnp
-    from probdiffeq import probdiffeq as pdq
 
     res = {}
     for fact in ("dense", "iso"):
